@@ -33,6 +33,10 @@ GeoCases(l) ==
 \* pyramids with one box (any encoding) on each of the levels 0..MaxPyrL, all other levels empty
 PyrUniverse == IF MaxPyrL = 0 THEN { <<x>> : x \in Universe(0) }
                ELSE { <<x, y>> : x \in Universe(0), y \in Universe(1) }
+\* pyramids whose covered levels are NOT contiguous (level 0 or 1, nothing on the next levels, then level 3 and level 6)
+GapBoxes3 == { Box(3, 1, 2, 5, 6), Box(3, 0, 0, 7, 7), NewEmpty(3) }
+GapBoxes6 == { Box(6, 10, 20, 33, 40), NewEmpty(6) }
+GapUniverse == { <<x, y, z>> : x \in { Box(0, 0, 0, 0, 0), NewEmpty(0), Box(1, 0, 1, 1, 1) }, y \in GapBoxes3, z \in GapBoxes6 }
 
 Emit(rec) == PrintT(<<"REPLAY", ToJson(rec)>>)
 GeoJson(q) == [w |-> q.w, n |-> q.n, e |-> q.e, s |-> q.s]
@@ -49,7 +53,7 @@ Init ==
        /\ Emit([k |-> "geo", l |-> a.l, g |-> GeoJson(g)])
     \/ /\ kind = "pyr" /\ a = NoBox /\ b = NoBox /\ g = NoGeo
        /\ MaxPyrL >= 0
-       /\ pq \in PyrUniverse \X PyrUniverse
+       /\ pq \in (PyrUniverse \X PyrUniverse) \cup (GapUniverse \X GapUniverse)
        /\ Emit([k |-> "pyr", p |-> [i \in 1..Len(pq[1]) |-> ToSeq(pq[1][i])],
                                q |-> [i \in 1..Len(pq[2]) |-> ToSeq(pq[2][i])]])
 
@@ -72,6 +76,6 @@ InvPairLaws ==
 \* per-level application: a pyramid operation is the box operation on every level
 InvPyrLaws ==
     kind = "pyr" =>
-        \A i \in 1..Len(pq[1]) : LawImplIntersect(pq[1][i], pq[2][i]) /\ LawImplInclude(pq[1][i], pq[2][i])
+        \A i \in 1..Len(pq[1]) : pq[1][i].l = pq[2][i].l => LawImplIntersect(pq[1][i], pq[2][i]) /\ LawImplInclude(pq[1][i], pq[2][i])
 InvGeoLaws == kind = "geo" => LawImplFromGeo(g, a.l)
 =============================================================================
